@@ -70,6 +70,12 @@ func (c *Ctx) OK(rule, key string, pos token.Pos, examined int, format string, a
 }
 
 func (c *Ctx) Fail(rule, key string, pos token.Pos, format string, args ...any) {
+	// a function that uses constructs the rules have never seen (a new type that carries its data, a helper
+	// that could not be made transparent, a changed signature) cannot be judged by shape: undecided, not violated
+	if why := c.W.opaqueKey(key); why != "" {
+		c.add(rule, key, Undecided, token.NoPos, 0, "not decided, %s — the rule would otherwise report: %s", why, fmt.Sprintf(format, args...))
+		return
+	}
 	c.add(rule, key, Violated, pos, 1, format, args...)
 }
 
